@@ -213,7 +213,25 @@ async fn run_once(base: &Env, op: &str, plan: Plan, variant: u64, swallow: bool)
     if res.is_none() {
         ctl.settle().await;
     }
-    RunOut { res, trace: ctl.trace(), calls: ctl.calls(), env }
+    let mut trace = ctl.trace();
+    // calls that were in flight when the operation returned (an error in a concurrent task) or the process stopped:
+    // the store call itself runs to its end; whether it took effect is read off the store
+    let dropped = ctl.dropped_in_flight();
+    if !dropped.is_empty() {
+        tokio::time::sleep(std::time::Duration::from_millis(80)).await;
+        let listing = env.list_all().await;
+        for mut e in dropped {
+            let (target, source_gone) = match e.kind {
+                inject::K_PUT | inject::K_CREATE => (env.rel(&e.a), true),
+                inject::K_DELETE => (String::new(), !listing.contains(&env.rel(&e.a))),
+                inject::K_RENAME_INE | inject::K_RENAME => (env.rel(&e.b), !listing.contains(&env.rel(&e.a))),
+                _ => (env.rel(&e.b), true),
+            };
+            e.effect = (target.is_empty() || listing.contains(&target)) && source_gone;
+            trace.push(e);
+        }
+    }
+    RunOut { res, trace, calls: ctl.calls(), env }
 }
 
 const P_ITY: &str = "list ((N * N) * (N * list N)) * (N * ((list bool * (N * N)) * (list bool * list N)))";
